@@ -2,7 +2,9 @@
 EXTENDS TrackModel
 Str(o) == [opk |-> "str", op |-> o, type |-> ""]
 Inl(n, ty) == [opk |-> "inl", op |-> n, type |-> ty]
-Op(n, ty, b) == [name |-> n, type |-> ty, bulk |-> b]
+Op(n, ty, b) == [name |-> n, type |-> ty, bulk |-> b, xp |-> NoX]
+X(q, dflt, cm) == [p |-> q, d |-> dflt, comma |-> cm]
+OpX(n, ty, x) == [name |-> n, type |-> ty, bulk |-> NoVal, xp |-> x]
 Doc(b, x, cnt, ti) == [base |-> b, ext |-> x, count |-> cnt, tidx |-> ti, tds |-> "", iaamd |-> "abs"]
 
 \* ---- quick: exhaustive over small alphabets ----
@@ -20,7 +22,12 @@ SeedCorpus2 == [SeedCorpus EXCEPT !.indices = <<"i1", "i2">>, !.corpora[1].tidx 
 SeedsOps == {SeedOps}
 SeedsAll == {Seed0(form) : form \in FormsAll} \cup {SeedTwo, SeedOps, SeedPar, SeedCorpus, SeedCorpus2}
 TaskOpsQ == {Str("bulk"), Str("n1"), Inl("", "force-merge")}
-OpDefsQ == {Op("n1", "search", L(50)), Op("n1", "bulk", P("p1", 50)), Op("n2", "force-merge", NoVal)}
+OpDefsQ == {Op("n1", "search", L(50)), Op("n1", "bulk", P("p1", 50)), Op("n2", "force-merge", NoVal),
+            OpX("n2", "search", X("x1", 5, TRUE)), OpX("n1", "search", X("x1", Abs, FALSE))}
+XValsQ == {0, -2, -3, 7}
+XValsS == {0, -2, -3, -4, 7}
+XUsesQ == {X("x1", 5, FALSE), X("x1", Abs, TRUE)}
+XUsesS == {X(q, dflt, cm) : q \in {"x1", "x2"}, dflt \in {Abs, 0, 5}, cm \in BOOLEAN}
 DocFilesQ == {Doc("docs1", "bz2", L(10), ""), Doc("docs2", "", P("p1", 10), "i1"), Doc("docs1", "", L(0), ""),
               [Doc("docs3", "", L(10), "") EXCEPT !.iaamd = "true"]}
 AlphaQ == [clients |-> {0, 2}, wi |-> {0}, it |-> {0, 3}, wtp |-> {5}, tp |-> {7}, ru |-> {5, 9}, tput |-> {4}, bulk |-> {50},
@@ -39,6 +46,7 @@ TaskOpsS == {Str("bulk"), Str("search"), Str("n1"), Str("n2"), Str("n3"), Inl(""
              Inl("n3", "search"), Inl("n4", "create-index")}
 OpDefsS == {Op("n1", "search", L(50)), Op("n1", "bulk", P("p1", 50)), Op("n2", "force-merge", NoVal), Op("n2", "bulk", P("p2", 1000)),
             Op("n3", "my-op", NoVal), Op("search", "raw-request", NoVal)}
+           \cup {OpX("n3", "search", x) : x \in XUsesS}
 DocFilesS == {Doc("docs1", "bz2", L(10), ""), Doc("docs2", "", P("p1", 10), "i1"), Doc("docs1", "", L(0), ""), Doc("docs3", "gz", P("p2", 500), ""),
               Doc("docs4", "", L(1000000), "i2"), [Doc("docs5", "gz", L(7), "") EXCEPT !.iaamd = "true"],
               [Doc("docs6", "", L(7), "") EXCEPT !.tds = "d1"]}
